@@ -95,6 +95,11 @@ def gen_program(rng, extended):
                 if how == "reread" and not c["children"]:
                     c["ret_none"] = rng.random() < 0.5
                 spec["children"].append(c)
+            # the same call twice in one group / loop (identical arguments, so identical call identity): two executions everywhere
+            last = spec["children"][-1] if spec["children"] else None
+            if last is not None and how in ("group", "cgroup", "direct", "single") and not last["children"] and last["script"] == ["return"] and rng.random() < 0.35:
+                spec["children"].append(last)
+                spec["twin"] = True
         return spec
     return mk(1, True)
 
